@@ -398,3 +398,22 @@ package federation
 //@ call Federation.sendMessage#1 assert [C17] $arg0 == f && msg == req.Message && msg != nil && err == nil && $preCalls == old($preCalls) + 1
 //@ ensures [C17] result != nil ==> called(Federation.sendMessage#1) == 0
 //@ ensures [C17] called(Federation.sendMessage#1) <= 1
+
+// OnWillPublish wrapper: the same for a will message — the earlier plugins decide first; a will they dropped is not
+// forwarded; otherwise the will as they left it is handed to sendMessage, once.
+//@ func type server.OnWillPublish
+//@ params ctx, clientID, req
+//@ modifies heap, $preCalls
+//@ preserves all(Federation.*), all(peer.*), all(localSubStore.*), all(fedSubStore.*), allmaps(string, *peer), allmaps(string, uint64), allmaps(string, struct{}), allmaps(string, map[string]struct{}), allcells(*Federation)
+//@ ensures $preCalls == old($preCalls) + 1
+//@ func (*server.WillMsgRequest).Drop trusted
+//@ params w
+//@ modifies w.Message
+
+//@ func (*Federation).OnWillPublishWrapper$1
+//@ props C17
+//@ requires [C17] f != nil && pre != nil && req != nil
+//@ modifies heap, $preCalls, ghostall(queue.$qadds), ghostall(queue.$lastEv)
+//@ waive requires
+//@ call Federation.sendMessage#1 assert [C17] $arg0 == f && msg == req.Message && msg != nil && $preCalls == old($preCalls) + 1
+//@ ensures [C17] called(Federation.sendMessage#1) <= 1
